@@ -816,6 +816,23 @@ impl Operator<i64> for SPwide {
     }
 }
 
+/// a probe whose output is zero-sized (a validator: it only accepts or rejects)
+pub struct SPunit {
+    fail_on_call: Option<u32>,
+    calls: std::rc::Rc<std::cell::Cell<u32>>,
+}
+impl Composable for SPunit {}
+impl Operator<i64> for SPunit {
+    type Output = ();
+    type Error = SErr;
+    fn apply<R: Rng + ?Sized>(&self, _: i64, rng: &mut R) -> Result<(), SErr> {
+        let n = self.calls.get();
+        self.calls.set(n + 1);
+        let _ = rng.next_u32();
+        if self.fail_on_call == Some(n) { Err(SErr(8)) } else { Ok(()) }
+    }
+}
+
 fn std_chain(e: &(dyn StdError + 'static)) -> Vec<String> {
     let mut out = vec![e.to_string()];
     let mut cur = e.source();
@@ -928,6 +945,23 @@ fn static_chain_case(kind: u8, failing: u8, call: u32) -> Result<bool, Fail> {
                 }
             }
         }
+        8 => {
+            // zero-sized outputs: every element is still visited, in order, drawing from the stream
+            let calls = std::rc::Rc::new(std::cell::Cell::new(0u32));
+            let op = SV.then_map(SPunit { fail_on_call: if failing == 1 { Some(call) } else { None }, calls: calls.clone() });
+            let r = op.apply(5, &mut rng);
+            let words = rng.fingerprint().words;
+            match r {
+                Err(e) => {
+                    ensure!(calls.get() == call + 1 && words == u64::from(call) + 1, "compose/ran-after-failure", "mapping a validator over 3 elements, failing at {call}: {} calls, {words} words drawn", calls.get());
+                    judge_chains("make_vec.then_map(validator with a zero-sized output)", &e, 3, 8, Some(call as usize)).map(|()| true)
+                }
+                Ok(v) => {
+                    ensure!(v.len() == 3 && calls.get() == 3 && words == 3, "compose/value", "mapping a validator (zero-sized output) over 3 elements gave {} results after {} calls and {words} words", v.len(), calls.get());
+                    Ok(false)
+                }
+            }
+        }
         _ => {
             // a plain operator under map, and a map nested in a map
             let op = SV.then_map(SP::new(1, f(1)));
@@ -941,7 +975,7 @@ fn static_chain_case(kind: u8, failing: u8, call: u32) -> Result<bool, Fail> {
 
 fn static_error_chains(ctx: &mut Ctx) {
     let mut cases = vec![];
-    for kind in 0u8..8 {
+    for kind in 0u8..10 {
         for failing in 0u8..4 {
             for call in 0u32..3 {
                 cases.push((kind, failing, call));
